@@ -1270,8 +1270,9 @@ class _Len(int):
 
 
 class _ListEval:
-    def __init__(self, ix: Any) -> None:
+    def __init__(self, ix: Any, defs: "dict[str, list[nodes.Node]] | None" = None) -> None:
         self.ix = ix
+        self.defs = defs or {}  # template-local names and what they are `set` to
         self.colls: list[str] = []
         self.atoms: list[str] = []
         self.unresolved: list[str] = []
@@ -1297,15 +1298,16 @@ class _ListEval:
         fs = [f for f in self.ix.all_functions if f.name == name and f.cls is not None]
         got: "list[str] | None" = []
         if fs:
-            alts = [_concat_parts(f.node) for f in fs]
+            alts = [_concat_parts(self.ix, f) for f in fs]
             got = alts[0] if all(a is not None and a == alts[0] for a in alts) else None
         self._concat[name] = got
         return got
 
     def seq(self, n: nodes.Node) -> _Len:
         """the length of an iterable"""
+        n = self._defined(n)
         while isinstance(n, nodes.Filter) and n.name in _ORDER_ONLY and n.node is not None and not n.args:
-            n = n.node
+            n = self._defined(n.node)
         if isinstance(n, nodes.Add):
             return _Len(self.seq(n.left) + self.seq(n.right))
         if isinstance(n, (nodes.List, nodes.Tuple)):
@@ -1325,7 +1327,17 @@ class _ListEval:
                 return _Len(sum(self._coll(f"{r}.{a}") for a in parts))
         return self._coll(_domain_text(expr_text(n)))
 
+    def _defined(self, n: nodes.Node, depth: int = 0) -> nodes.Node:
+        """a variable that is `set` once reads as what it is set to"""
+        while isinstance(n, nodes.Name) and depth < 6:
+            ds = self.defs.get(n.name, [])
+            if len(ds) != 1 or not isinstance(ds[0], nodes.Expr):
+                break
+            n, depth = ds[0], depth + 1
+        return n
+
     def is_seq(self, n: nodes.Node) -> bool:
+        n = self._defined(n)
         if isinstance(n, (nodes.Add, nodes.List, nodes.Tuple)):
             return True
         if isinstance(n, nodes.Filter) and n.name in _ORDER_ONLY and n.node is not None:
@@ -1335,6 +1347,7 @@ class _ListEval:
         return _domain_text(expr_text(n)) in self.colls or (isinstance(n, nodes.Getattr) and bool(self.parts_of(n.attr)))
 
     def val(self, n: nodes.Node) -> Any:
+        n = self._defined(n)
         if isinstance(n, nodes.Const):
             return n.value
         if isinstance(n, nodes.Not):
@@ -1362,14 +1375,41 @@ class _ListEval:
         return self._atom(_unparen(expr_text(n)))
 
 
-def _concat_parts(fn: ast.AST) -> "list[str] | None":
-    """[X, Y, ...] when the function returns, on its only path, a list with one element per element of self.X, of self.Y, ...; else None"""
+def _concat_parts(ix: Any, f: Any, nested: bool = False, level: int = 0) -> "list[str] | None":
+    """[X, Y, ...] when the method returns, on its only path, a list with one element per element of self.X, of self.Y, ... (nested: a
+    collection whose members are self.X, self.Y, ... themselves); else None.  Written as a concatenation, a display with starred
+    parts, a comprehension that keeps every element, a chain over the collections or over the values of a table of them - in the
+    method or in a helper method of the class that it calls."""
+    fn = f.node
     own = list(ast.walk(fn))
     rets = [n for n in own if isinstance(n, ast.Return)]
-    if len(rets) != 1 or rets[0].value is None or any(isinstance(n, (ast.If, ast.For, ast.While, ast.Try, ast.FunctionDef, ast.Lambda)) and n is not fn
-                                                      for n in own):
+    if len(rets) != 1 or rets[0].value is None or level > 3 or \
+            any(isinstance(n, (ast.If, ast.For, ast.While, ast.Try, ast.FunctionDef, ast.Lambda)) and n is not fn for n in own):
         return None
     once = _once_bound(fn)
+
+    def helper(e: ast.AST, want_nested: bool) -> "list[str] | None":
+        if isinstance(e, ast.Call) and isinstance(e.func, ast.Attribute) and isinstance(e.func.value, ast.Name) and e.func.value.id == "self" \
+                and not e.args and not e.keywords and f.cls is not None:
+            m = ix.find_method(f.cls, e.func.attr)
+            if m is not None and m != f:
+                return _concat_parts(ix, m, want_nested, level + 1)
+        return None
+
+    def colls(e: ast.AST, depth: int = 0) -> "list[str] | None":
+        """e is a collection of the collections self.X, ..."""
+        if isinstance(e, ast.Name) and e.id in once and depth < 6:
+            return colls(once[e.id], depth + 1)
+        if isinstance(e, (ast.List, ast.Tuple)) or (isinstance(e, ast.Dict) and None not in e.keys):
+            out: list[str] = []
+            for x in (e.values if isinstance(e, ast.Dict) else e.elts):
+                if not (isinstance(x, ast.Attribute) and isinstance(x.value, ast.Name) and x.value.id == "self"):
+                    return None
+                out.append(x.attr)
+            return out
+        if isinstance(e, ast.Call) and isinstance(e.func, ast.Attribute) and e.func.attr == "values" and not e.args and not e.keywords:
+            return colls(e.func.value, depth)  # (a table of collections: its values)
+        return helper(e, True)
 
     def parts(e: ast.AST, depth: int = 0) -> "list[str] | None":
         if isinstance(e, ast.Name) and e.id in once and depth < 6:
@@ -1389,20 +1429,28 @@ def _concat_parts(fn: ast.AST) -> "list[str] | None":
             return out
         if isinstance(e, (ast.ListComp, ast.GeneratorExp)) and len(e.generators) == 1 and not e.generators[0].ifs:
             return parts(e.generators[0].iter, depth)
-        if isinstance(e, ast.Call) and isinstance(e.func, ast.Name) and e.func.id in ("list", "tuple", "sorted", "reversed") and len(e.args) == 1 \
-                and not e.keywords:
-            return parts(e.args[0], depth)
-        if isinstance(e, ast.Call) and call_name(e).split(".")[-1] == "chain" and not e.keywords:
-            out = []
-            for x in e.args:
-                got = parts(x.value if isinstance(x, ast.Starred) else x, depth)
-                if got is None or isinstance(x, ast.Starred):
-                    return None
-                out += got
-            return out
+        if isinstance(e, ast.Call):
+            name = call_name(e)
+            if name in ("list", "tuple", "sorted", "reversed") and len(e.args) == 1 and not isinstance(e.args[0], ast.Starred):
+                return parts(e.args[0], depth)
+            if name.endswith("chain.from_iterable") and len(e.args) == 1 and not e.keywords:
+                return colls(e.args[0], depth)
+            if name.split(".")[-1] == "chain" and not e.keywords:
+                if len(e.args) == 1 and isinstance(e.args[0], ast.Starred):
+                    return colls(e.args[0].value, depth)
+                out = []
+                for x in e.args:
+                    got = None if isinstance(x, ast.Starred) else parts(x, depth)
+                    if got is None:
+                        return None
+                    out += got
+                return out
+            if name == "sum" and len(e.args) == 2 and isinstance(e.args[1], ast.List) and not e.args[1].elts:
+                return colls(e.args[0], depth)
+            return helper(e, False)
         return None
 
-    return parts(rets[0].value)
+    return (colls if nested else parts)(rets[0].value)
 
 
 def _loop_tree(frs: list[tuple[int, Any]], depth: int = 0) -> list[Any]:
@@ -1504,6 +1552,11 @@ def _parameter_lists(rep: Report, ctx: Any) -> None:
     ix, jx = ctx.py, ctx.jinja
     n_lists = 0
     legacy: "tuple[str, int] | None" = None
+    defs: dict[str, list[nodes.Node]] = {}
+    for t_ in jx.templates.values():
+        for k, v in _set_defs(t_.tree).items():
+            defs.setdefault(k, [])
+            defs[k] += [d for d in v if not any(d is x for x in defs[k])]
     for tn_, ti_ in sorted(jx.templates.items()):
         for mname_, body_ in [("<top>", ti_.tree.body)] + [(m_.name, m_.body) for m_ in ti_.macros.values()]:
             afr = list(_TplRun(jx, ti_).frags(body_, ti_))
@@ -1516,7 +1569,7 @@ def _parameter_lists(rep: Report, ctx: Any) -> None:
             rep.require(lists, f"the parameter list around the `*,` of {tn_}::{mname_}")
             for gi, lst in enumerate(lists):
                 n_lists += 1
-                found = _list_findings(rep, ix, afr, lst, f"{tn_}::{mname_}")
+                found = _list_findings(rep, ix, afr, lst, f"{tn_}::{mname_}", defs)
                 if "positional-defaults" in found and legacy is None:
                     legacy = (tn_, found["positional-defaults"][1])
                 others = {k: v for k, v in found.items() if k != "positional-defaults"}
@@ -1536,12 +1589,12 @@ def _parameter_lists(rep: Report, ctx: Any) -> None:
                  lhs="to_string() before `*,`", rhs="no defaults, or defaulted ones last")
 
 
-def _list_findings(rep: Report, ix: Any, afr: list[Any], lst: _Group, name: str) -> dict[str, tuple[str, int, Any]]:
+def _list_findings(rep: Report, ix: Any, afr: list[Any], lst: _Group, name: str, defs: dict) -> dict[str, tuple[str, int, Any]]:
     import itertools
 
     frs = [(i, f) for i, f in enumerate(afr) if lst.lo <= i <= lst.hi]
     tree = _loop_tree(frs)
-    ev = _ListEval(ix)
+    ev = _ListEval(ix, defs)
     for _, f in frs:  # the collections first (what is looped over, what is measured), then the conditions
         for ln in f.lnodes:
             ev.seq(ln)
